@@ -188,8 +188,9 @@ Definition with_deleting (b : bool) (i : info) : info :=
 Definition with_obj (t : Z) (ms : list member) (i : info) : info :=
   mkInfo t ms (i_parent i) (i_children i) (i_deleting i).
 
-(* addChild: returns the state and the error flag *)
-Definition add_child (s : st) (parent c : positive) : st * bool :=
+(* addChild: returns the state and the error flag.  [add_child_prefix] is the code before
+   the repair of finding D5 (kept for the _refuted witness). *)
+Definition add_child_prefix (s : st) (parent c : positive) : st * bool :=
   let s1 := match aget c (s_hn s) with Some _ => s | None => set_hn s (aset c placeholder (s_hn s)) end in
   let ci := match aget c (s_hn s1) with Some i => i | None => placeholder end in
   match i_parent ci with
@@ -199,6 +200,18 @@ Definition add_child (s : st) (parent c : positive) : st * bool :=
   | None =>
       let s2 := upd_info s1 c (with_parent (Some parent)) in
       (upd_info s2 parent (fun i => with_children (pins c (i_children i)) i), false)
+  end.
+
+(* repair of D5: a member without an entry (never created, or deleted while still claimed)
+   cannot record its parent, so another HyperNode whose spec lists it is a second parent too *)
+Definition other_claimers (hn : list (positive * info)) (c exclude : positive) : list positive :=
+  map fst (filter (fun ki => negb (Pos.eqb (fst ki) exclude) &&
+                             existsb (fun m => match m with MHyper h => Pos.eqb h c | _ => false end)
+                                     (i_members (snd ki))) hn).
+Definition add_child (s : st) (parent c : positive) : st * bool :=
+  match aget c (s_hn s), other_claimers (s_hn s) c parent with
+  | None, _ :: _ => (s, true)
+  | _, _ => add_child_prefix s parent c
   end.
 
 Definition bres := (st * list positive * bool)%type.   (* state, processed, error *)
@@ -298,10 +311,11 @@ Definition claimers (hn : list (positive * info)) (c exclude : positive) : list 
    drops the deleted name from every Children set, D4 a placeholder entry is
    not "known"; and round 3: D6 an update revives an entry whose deletion failed,
    D9 only adopted members are released.  [fx] is the repair level: 0 = the code
-   before any repair, 1 = D1+D3+D4, 2 = the code as it is now (kept for the
+   before any repair, 1 = D1+D3+D4, 2 = + D6+D9, 3 = the code as it is now (kept for the
    _refuted witnesses). *)
 Definition fx1 (fx : nat) : bool := Nat.ltb 0 fx.
 Definition fx2 (fx : nat) : bool := Nat.ltb 1 fx.
+Definition fx3 (fx : nat) : bool := Nat.ltb 2 fx.   (* round 5: D2a, a listed node that no longer matches is dropped *)
 Definition mark_failed (fx : nat) (s : st) (k : positive) : st :=
   set_ready (if fx1 fx then set_failed s (pins k (s_failed s)) else s) false.
 Definition unfail (fx : nat) (s : st) (k : positive) : st :=
@@ -400,7 +414,7 @@ Definition trigger_gen (fx : nat) (e : env) (s : st) (n : positive) : st * bool 
     (* the leaf list was taken before the loop; the object is re-read by name *)
     match aget (fst ki) (s_hn s0) with
     | None => acc
-    | Some i => if node_matches e n (i_members i)
+    | Some i => if node_matches e n (i_members i) || (fx3 fx && pmem n (real_get s0 (fst ki)))
                 then upd_gen fx e s0 (mkObj (fst ki) (i_tier i) (i_members i)) else acc
     end) leaves (s, false).
 
@@ -416,15 +430,17 @@ Definition step_gen (fx : nat) (es : env * st) (ev : event) : env * st :=
   | ENodeDel n => let e' := mkEnv (pdel n (e_nodes e)) (e_sel e) in (e', fst (trigger_gen fx e' s n))
   end.
 
-Definition upd := upd_gen 2.
-Definition del := del_gen 2.
-Definition trigger := trigger_gen 2.
-Definition step := step_gen 2.
+Definition upd := upd_gen 3.
+Definition del := del_gen 3.
+Definition trigger := trigger_gen 3.
+Definition step := step_gen 3.
 Definition run (e : env) (evs : list event) : env * st := fold_left step evs (e, init_st).
 (* the code before the repairs *)
 Definition run_prefix (e : env) (evs : list event) : env * st := fold_left (step_gen 0) evs (e, init_st).
 (* the code after the round-2 repairs (D1, D3, D4) and before D6, D9 *)
 Definition run_round2 (e : env) (evs : list event) : env * st := fold_left (step_gen 1) evs (e, init_st).
+(* the code after D6, D9 and before the round-5 repair D2a *)
+Definition run_round4 (e : env) (evs : list event) : env * st := fold_left (step_gen 2) evs (e, init_st).
 
 (* from scratch: a fresh view fed only the given objects, in the given order *)
 Definition scratch (e : env) (objs : list hobj) : st := snd (run e (map EUpd objs)).
